@@ -19,7 +19,7 @@ Symbols  == DOMAIN SymTok
 \* cannot start a token.  UREPL = U+FFFD, validly encoded (what a decoder puts for an invalid byte, but a character of its own).
 \* USYM = U+203A and LSEP = U+2028: non-letters whose code point modulo 256 is an ASCII
 \* symbol (":" and "("), so truncating a rune to a byte would turn them into operators
-Others   == {"HASH","SEMI","PCT","COMMA","NUL","BAD","NBSP","BANG","AMP","PIPE","AT","USYM","LSEP","DEL","CTRL","UREPL","LDQ","RDQ"}
+Others   == {"HASH","SEMI","PCT","COMMA","NUL","BAD","NBSP","BANG","AMP","PIPE","AT","USYM","LSEP","DEL","CTRL","UREPL","LDQ","RDQ","USUP","UFRAC"}
 AllSyms  == Alnum \cup Wild \cup Spaces \cup Symbols \cup Others \cup {"BS","MINUS","DOT","DQ","SQ","SL"}
 
 Upper(c) == CASE c = "o" -> "O" [] c = "r" -> "R" [] OTHER -> c
